@@ -584,3 +584,129 @@ def c15(tier):
     v.finish(cov, assumptions=["failure injection at the io::Write::write boundary (tools/zdrive/src/sinks.rs); flush is never called by the writer",
                                "WriterError::Io is recognised by its Debug variant name (the error type is private)"],
              min_evaluations=5000)
+
+
+# =========================================================================================== C13
+
+def _norm_msg(m):
+    import re
+    m = re.sub(r"`[^`]*`", "`…`", m or "")
+    m = re.sub(r"\"[^\"]*\"", "\"…\"", m)
+    m = re.sub(r"\d+", "N", m)
+    return m[:100]
+
+
+def _c13_budget(files):
+    size = sum(len(c) for c in files.values())
+    return 10 + size // 50_000
+
+
+def c13(tier):
+    from . import mutate_xml, gen_invalid
+    v = Verdict("C13", tier, "exploration")
+    zdrive = common.build_tool("zdrive")
+    n_mut = 2600 if tier == "quick" else 140_000
+    corpus = []
+    for label, d, start in repo_corpus():
+        files = read_dir_files(d, start)
+        corpus.append((label, files, start))
+    for k in range(12 if tier == "quick" else 60):
+        text, _ = synth_wsdl(rng("C13", "synth", k), 1 + k % 6)
+        corpus.append((f"synth-wsdl-{k}", {"svc.wsdl": text}, "svc.wsdl"))
+    # C11-style multi-file sets (cyclic imports included) as mutation seeds, rendered by zdrive's own renderer
+    jobs = []
+    meta = []
+
+    def add(label, files, start, ops):
+        jobs.append({"id": len(jobs), "op": "gen", "files": files, "start": start, "cpu_budget_s": _c13_budget(files)})
+        meta.append({"label": label, "ops": ops, "files": files, "start": start})
+
+    for label, files, start in gen_invalid.cases():
+        add("grammar:" + label, files, start, ["grammar"])
+    n_grammar = len(jobs)
+    # weights: small documents are mutated much more often than the 800 kB ones
+    weights = [1.0 / (1 + sum(len(c) for c in f.values()) / 40_000) for _, f, _ in corpus]
+    r = rng("C13", "mutate")
+    for i in range(n_mut):
+        label, files, start = r.choices(corpus, weights)[0]
+        files = dict(files)
+        target = r.choice(sorted(files)) if r.random() < 0.35 else start
+        ops = []
+        if r.random() < 0.08:
+            files[target], lab = mutate_xml.text_level(files[target], r)
+            ops.append(lab)
+        else:
+            other = r.choice(corpus)[1]
+            other_text = other[sorted(other)[0]]
+            if len(other_text) > 200_000:
+                other_text = None
+            out, labs = mutate_xml.mutate(files[target], r, n_ops=r.choice([1, 1, 1, 2, 3]), other_text=other_text)
+            if out is None:
+                continue
+            files[target] = out
+            ops = labs
+        if r.random() < 0.03:
+            start = r.choice(sorted(files))      # start from a sibling instead
+            ops.append("start-from-sibling")
+        add("mutated:" + label, files, start, ops)
+    results = common.run_jobs(zdrive, jobs, nworkers=16, wall_timeout=600)
+    outcomes = {}
+    past_parse = 0
+    evaluated = 0
+    inconclusive = 0
+    fingerprints = set()
+    samples = []
+    for job, m, res in zip(jobs, meta, results):
+        opclass = ",".join(sorted(set(o.split(":")[0] + (":" + o.split(":")[1].split("@")[-1].split("->")[0] if ":" in o else "") for o in m["ops"])))[:80]
+        if res.get("watchdog"):
+            inconclusive += 1
+            continue
+        evaluated += 1
+        replay_files = {"in/" + k: c for k, c in m["files"].items()}
+        replay_files["start.txt"] = m["start"]
+        if "died" in res:
+            kind = common.classify_death(res)
+            via = m["label"].split(":", 1)[1] if m["label"].startswith("grammar:") else "mutation"
+            v.violation(f"C13|{kind}|via={via if via != 'mutation' else 'mutation:' + opclass}",
+                        {"input": m["label"], "ops": m["ops"], "stderr": res.get("stderr", "")[-300:], "start": m["start"]}, replay_files)
+            outcomes[kind] = outcomes.get(kind, 0) + 1
+            past_parse += 1
+            continue
+        call = res["calls"][0]
+        if call["outcome"] == "panic":
+            p = call.get("panic") or {}
+            site = (p.get("file", "?").replace("/repo/zeep-lib/src/", "")) + "::" + (p.get("func", "").split("::")[-1] or "?")
+            v.violation(f"C13|panic|stage={call.get('stage')}|site={site}|msg={_norm_msg(p.get('msg'))}",
+                        {"input": m["label"], "ops": m["ops"], "panic": p, "start": m["start"]}, replay_files)
+            outcomes["panic"] = outcomes.get("panic", 0) + 1
+            past_parse += 1
+            continue
+        key = call["outcome"] if call["outcome"] == "ok" else "err:" + str(call.get("err", {}).get("variant"))
+        outcomes[key] = outcomes.get(key, 0) + 1
+        msg = str(call.get("err", {}).get("msg", ""))
+        if not (key == "err:Message" and "Unable to parse" in msg):
+            past_parse += 1
+            fingerprints.add((m["label"].split(":", 1)[0], opclass, key))
+        if len(samples) < 8 and i % 7 == 0 and m["ops"] != ["grammar"]:
+            samples.append({"seed_document": m["label"], "mutations": m["ops"], "outcome": key})
+    for label in ("grammar:recursion:ref-self", "grammar:colliding-namespaces:n=300", "grammar:start-file-missing"):
+        samples.append({"grammar_case": label})
+    cov = {
+        "evaluations": evaluated,
+        "distinct_nontrivial": len(fingerprints),
+        "rule": "stream 1: structure-aware mutation (delete/duplicate/move subtree, drop/alter key attributes, retarget QNames to "
+                "dangling/self/enclosing/other-kind targets, mutual references, prefix/URI changes, extra sequence/choice levels, "
+                "occurrence garbage, tag renames, splices from other schemas; 1-3 stacked) of every repository schema/WSDL, of "
+                "synthetic WSDLs, applied to the start file or a sibling; 8% text-level damage; stream 2: the enumerated grammar of "
+                "invalid documents in vf/gen_invalid.py (missing attribute at every site, recursion through ref/base/type, forward-"
+                "reference fan-out, colliding namespaces, deep nesting, WSDL wiring errors, API misuse). Each input runs "
+                "read_xml+write_xml in a zdrive child under catch_unwind, RLIMIT_CPU (10 s + 1 s/50 kB) and an 8 MiB stack. "
+                "Non-trivial = got past XML parsing; distinct = distinct (stream, mutation-operator class, outcome class) triples",
+        "grammar_cases": n_grammar, "mutated_inputs": len(jobs) - n_grammar, "past_xml_parsing": past_parse,
+        "outcomes": outcomes, "inconclusive_cases": inconclusive, "samples": samples,
+    }
+    if inconclusive > len(jobs) * 0.1:
+        v.inconclusive = f"{inconclusive} of {len(jobs)} inputs hit the wall-clock watchdog"
+    v.finish(cov, assumptions=["outcome classes are observed at the process boundary: result line, caught panic (hook), death by signal, RLIMIT_CPU",
+                               "dev profile (debug assertions and overflow checks on) — stricter than a release build"],
+             min_evaluations=1000)
